@@ -97,6 +97,9 @@ pub fn run_case(ctx: &mut CaseCtx) -> CaseResult {
         // widen the race windows between the cleanup thread and further rotations
         let st = rng.next() | 1;
         ctl::with_ctl(|c| {
+            // the logging thread lingers between the rename of the current file and the swap of
+            // the writer (fs point `open`), so that the cleanup thread can run inside that window
+            c.delays.push(("open".into(), "flmon-case".into(), 150));
             c.noise_state = st;
             c.noise_max_us = 300;
             c.noise_points = [
@@ -132,10 +135,7 @@ pub fn run_case(ctx: &mut CaseCtx) -> CaseResult {
     let no_suffix_compression =
         cfg.names.suffix.is_none() && matches!(cfg.clean, Clean::Gz(_) | Clean::Both(_, _));
     let facts_of = |same_second_rot: bool| {
-        if no_suffix_compression {
-            // the configuration facts that make it fail: no suffix + a compressing strategy
-            return "no-suffix+compressing-cleanup".to_string();
-        }
+        let _ = no_suffix_compression;
         format!(
             "naming={}/cleanup={}/{}/{}{}",
             cfg.names.naming.label(),
